@@ -184,6 +184,36 @@ fn rec_value_program(rng: &mut Rng) -> String {
     format!("{}{}", gen::PREAMBLE, body)
 }
 
+/// A function value that the *host* calls through `Function::call` (first line: `// a b`, the
+/// arguments); some calls fail inside the function
+fn hostcall_program(rng: &mut Rng) -> String {
+    let (a, b) = *rng.pick(&[(8i64, 2i64), (1, 0), (3, 7), (0, 0), (5, 1), (i64::MIN, -1), (2, 40)]);
+    let body = match rng.below(5) {
+        0 => "\\x y -> x #Int/ y".to_string(),
+        1 => "\\x y -> array.index [x, x, x] y".to_string(),
+        2 => "\\x y -> (rec let deep n = if n #Int< 1 then x #Int/ y else 1 #Int+ deep (n #Int- 1) in deep 6)".to_string(),
+        3 => "\\x y -> if y #Int< 1 then prim.error \"host called function failed\" else x #Int+ y".to_string(),
+        _ => "\\x y -> string.len (string.slice \"abcdef\" x y)".to_string(),
+    };
+    format!("// {} {}\n{}{}\n", a, b, PRIM_PREAMBLE, body)
+}
+
+/// Evaluates the function of a `hostcall` step and calls it from the host
+fn hostcall(vm: &RootedThread, name: &str, src: &str) -> String {
+    use gluon::vm::api::{Getable, OwnedFunction};
+    let mut args = src.lines().next().unwrap_or("").trim_start_matches("//").split_whitespace().filter_map(|x| x.parse::<i64>().ok());
+    let (a, b) = (args.next().unwrap_or(1), args.next().unwrap_or(1));
+    let f = match vm.run_expr::<OpaqueValue<RootedThread, Hole>>(name, src) {
+        Ok((f, _)) => f,
+        Err(e) => return classify(&e),
+    };
+    let mut f: OwnedFunction<fn(i64, i64) -> i64> = Getable::from_value(vm, f.get_variant());
+    match f.call(a, b) {
+        Ok(v) => format!("OK {} : Int", v),
+        Err(e) => classify(&gluon::Error::from(e)),
+    }
+}
+
 fn io_program(rng: &mut Rng) -> String {
     // IO typed programs (run with run_io): polymorphic results, exceptions, catch
     let v = rng.below(9);
@@ -267,7 +297,7 @@ impl Engine for C06 {
 
     fn info(&self) -> EngineInfo {
         EngineInfo {
-            rule: "one run = one long-lived VM executing a generated history of 3-10 evaluations: succeeding generated programs, failing programs (explicit error, index out of range, division by zero, integer overflow, failing host function, invalid string slice, recursive value bindings that the front end has to reject next to legal ones) buried under recursion depth / closures / partial and over-application / data construction, IO-typed programs with run_io (throw, catch, polymorphic results), and calls of exported std primitives (string, array, int, float, byte, char, prim) on boundary-value tuples. While a step runs, the debug hook (CALL events) yields to the simulator at tape-chosen points where it injects: forced/explicit collections, interrupt, allocation failure (memory limit = allocated + delta), stack limit, cancellation (the evaluation future is dropped). Every step is mirrored on a brand new VM. Non-trivial = a step failed or a fault fired, and a later step ran on the same VM; distinct = distinct hash of (workload, decision tape).",
+            rule: "one run = one long-lived VM executing a generated history of 3-10 evaluations: succeeding generated programs, failing programs (explicit error, index out of range, division by zero, integer overflow, failing host function, invalid string slice, recursive value bindings that the front end has to reject next to legal ones) buried under recursion depth / closures / partial and over-application / data construction, IO-typed programs with run_io (throw, catch, polymorphic results), and calls of exported std primitives (string, array, int, float, byte, char, prim) on boundary-value tuples, and functions that the host calls through Function::call with arguments that make some calls fail. While a step runs, the debug hook (CALL events) yields to the simulator at tape-chosen points where it injects: forced/explicit collections, interrupt, allocation failure (memory limit = allocated + delta), stack limit, cancellation (the evaluation future is dropped). Every step is mirrored on a brand new VM. Non-trivial = a step failed or a fault fired, and a later step ran on the same VM; distinct = distinct hash of (workload, decision tape).",
             real: vec!["parser/checker/compiler/VM, all std *.prim extern modules (vm/src/primitives.rs), api::function wrappers (extern \"C\"), error propagation and reset_stack in call_thunk_top/execute_io_top, io.catch/throw, debug hook, interrupt flag, memory/stack limits"],
             stubbed: vec!["executor (simulator polls the evaluation future, acts between polls)", "host = generated step list"],
             not_exercised: vec!["std.io file functions, std.fs, std.process, std.env, std.regex, std.random, std.http"],
@@ -293,14 +323,16 @@ impl Engine for C06 {
                 ("ok", ok_program(rng))
             } else if roll < 55 {
                 ("fail", failing_program(rng))
-            } else if roll < 59 {
+            } else if roll < 57 {
                 ("fail", rec_value_program(rng))
+            } else if roll < 61 {
+                ("hostcall", hostcall_program(rng))
             } else if roll < 65 {
                 ("io", io_program(rng))
             } else {
                 ("prim", prim_program(rng))
             };
-            let inject = inject_run && kind != "prim" && rng.chance(1, 2);
+            let inject = inject_run && kind != "prim" && kind != "hostcall" && rng.chance(1, 2);
             steps.push(json!({ "kind": kind, "prog": prog, "inject": inject }));
         }
         json!({
@@ -349,7 +381,11 @@ impl Engine for C06 {
             run::set_context(format!("reference VM, step {} ({})", i, kind));
             let expected = {
                 let fresh = setup_vm(prelude)?;
-                outcome(fresh.run_expr::<OpaqueValue<RootedThread, Hole>>(&format!("step{}", i), src))
+                if kind == "hostcall" {
+                    hostcall(&fresh, &format!("step{}", i), src)
+                } else {
+                    outcome(fresh.run_expr::<OpaqueValue<RootedThread, Hole>>(&format!("step{}", i), src))
+                }
             };
             // the long lived VM
             vm.collect();
@@ -360,7 +396,10 @@ impl Engine for C06 {
             let mut fault: Option<&'static str> = None;
             let mut cancelled = false;
             let step_name = format!("step{}", i);
-            let actual = {
+            let actual = if kind == "hostcall" {
+                run::count("host_calls_of_gluon_functions", 1);
+                hostcall(&vm, &step_name, src)
+            } else {
                 let fut = vm.run_expr_async::<OpaqueValue<RootedThread, Hole>>(&step_name, src);
                 let vm2 = vm.clone();
                 let out = exec::drive_with(fut, 200_000, |_| {
